@@ -61,6 +61,7 @@ class Contract:
     loops: Dict[int, LoopSpec] = field(default_factory=dict)
     proofs: List[ProofSplice] = field(default_factory=list)
     closures: List[ClosureSpec] = field(default_factory=list)
+    bodytags: Dict[str, tuple] = field(default_factory=dict)
     ghost: str = ''                 # ghost members appended inside the item body (struct/impl/trait)
     stub: bool = False
     after: str = ''                 # ghost items emitted right after the item
@@ -157,7 +158,7 @@ def parse_file(path: str) -> List[Contract]:
             cur_loop = None
             mm = re.match(r'(after|before|replace)\s+/(.*)/\s+(\S+)\s+\[([^\]]*)\]\s*$', arg) or \
                  re.match(r'(start)()\s+(\S+)\s+\[([^\]]*)\]\s*$', arg) or \
-                 re.match(r'(loophead|loopbody)\s+(\d+)\s+(\S+)\s+\[([^\]]*)\]\s*$', arg)
+                 re.match(r'(loophead|loopbody|loopend)\s+(\d+)\s+(\S+)\s+\[([^\]]*)\]\s*$', arg)
             if not mm:
                 raise ContractError('%s: @proof after|before /re/ <id> [tags]  or  @proof start <id> [tags]' % where)
             cur.proofs.append(ProofSplice(mode=mm.group(1), regex=mm.group(2) or None, text=rest_lines,
@@ -184,6 +185,11 @@ def parse_file(path: str) -> List[Contract]:
                 else:
                     raise ContractError('%s: bad @closure line %r' % (where, l))
             cur.closures.append(cs)
+        elif d == 'bodytag':
+            mm = re.match(r'(\w+)\s+(\S+)\s+\[([^\]]*)\]\s*$', arg)
+            if not mm:
+                raise ContractError('%s: @bodytag <kind> <id> [tags]' % where)
+            cur.bodytags[mm.group(1)] = (mm.group(2), mm.group(3).split())
         elif d == 'ghost':
             cur.ghost += rest_lines + '\n'
         elif d == 'after':
